@@ -440,3 +440,35 @@ func (v *Verifier) contractFileOfKey(key string) *ContractFile {
 	}
 	return v.anyContractFile()
 }
+
+// initNonNil: the package initializer stores into g exactly once, the result of a constructor known
+// never to return nil.
+func (v *Verifier) initNonNil(g *ssa.Global) bool {
+	init := g.Pkg.Func("init")
+	if init == nil {
+		return false
+	}
+	n := 0
+	ok := false
+	for _, b := range init.Blocks {
+		for _, in := range b.Instrs {
+			st, isStore := in.(*ssa.Store)
+			if !isStore || st.Addr != g {
+				continue
+			}
+			n++
+			switch x := st.Val.(type) {
+			case *ssa.Call:
+				if f, isFn := x.Call.Value.(*ssa.Function); isFn {
+					switch fnKey(f) {
+					case "regexp.MustCompile":
+						ok = true
+					}
+				}
+			case *ssa.Alloc:
+				ok = true
+			}
+		}
+	}
+	return n == 1 && ok
+}
